@@ -187,6 +187,8 @@ def materialise(spec, slots):
             return slots[v].query
         if t == "obj":
             return Opaque()
+        if t == "text":  # run-length text: [[unit, repetitions], ...] (+ optional prefix/suffix)
+            return spec.get("pre", "") + "".join(u * n for u, n in v) + spec.get("post", "")
         raise ValueError("bad spec %r" % (spec,))
     return spec
 
@@ -500,6 +502,10 @@ def _dispatch(name, op, slots, args, kwargs):
         return URL(*args, **kwargs)
     if name == "build":
         return URL.build(**kwargs)
+    if name == "qcall":
+        from yarl import _quoters as _q
+
+        return getattr(_q, args[0])(args[1])
     if name in STATE_OPS:
         if name == "cache_clear":
             yarl.cache_clear()
